@@ -3,11 +3,19 @@
 from __future__ import annotations
 
 from harness import adapter
-from ref import apispec
+from ref import apispec, encode
 
 from . import common
 
 POLICIES = ["idem", "nonidem", "connected"]
+# (retries, lifetime) the property texts / docs/design.md assign to the named policies
+SPEC_POLICY = {"idem": (2, 30.0), "nonidem": (0, 30.0), "connected": (0, 1.0)}
+
+
+def policy_numbers(p):
+    if isinstance(p, str):
+        return SPEC_POLICY[p]
+    return p["retries"], p["lifetime"]
 
 
 def distinct_messages(rng, gen: int, n: int) -> list[dict]:
@@ -118,6 +126,7 @@ class History:
         gen = world.gen
         w = common.wire(gen)
         self.frames = []  # {seq, t, link, reading, key, raw, fr}
+        self.partials = []  # trailing incomplete frame per link (cut by a fault)
         self.link_verdict = {}
         for link in world.net.links:
             buf = b"".join(d for (_s, _t, d) in link.tx_writes)
@@ -139,6 +148,9 @@ class History:
                     "seq": first[2], "t": first[3], "t_end": last[3], "seq_end": last[2], "link": link.id, "reading": r,
                     "key": apispec.reading_key(gen, r), "raw": fr["raw"], "fr": fr,
                 })
+            if verdict != "clean" and consumed < len(buf):
+                first = next(o for o in offs if o[0] <= consumed < o[1])
+                self.partials.append({"seq": first[2], "t": first[3], "link": link.id, "bytes": buf[consumed:], "verdict": verdict})
         self.frames.sort(key=lambda f: f["seq"])
         # submissions
         self.subs = []
@@ -146,12 +158,12 @@ class History:
             if c["op"] != "user.send":
                 continue
             d = c["step"]["msg"]
-            retries, life = adapter.policy_numbers(c["step"].get("policy", "idem"))
+            retries, life = policy_numbers(c["step"].get("policy", "idem"))
             self.subs.append({
                 "id": c["id"], "desc": d, "key": apispec.desc_key(gen, d), "t_accept": c["t_call"], "seq_call": c["seq_call"],
                 "exc": type(c["exc"]).__name__ if c["exc"] is not None else None, "returned": c["t_ret"] is not None,
                 "t_ret": c["t_ret"], "retries": retries, "lifetime": life, "policy": c["step"].get("policy", "idem"),
-                "tx": [],
+                "tx": [], "partial": [],
             })
         by_key = {s["key"]: s for s in self.subs}
         self.unattributed = []
@@ -162,6 +174,15 @@ class History:
             else:
                 s["tx"].append(f)
                 f["sub"] = s["id"]
+        self.unattributed_partials = []
+        for p in self.partials:
+            cands = [s for s in self.subs if encode.prefix_matches(gen, s["desc"], p["bytes"])]
+            if len(cands) == 1:
+                cands[0]["partial"].append(p)
+            elif not cands:
+                self.unattributed_partials.append(p)
+            else:
+                p["candidates"] = [c["id"] for c in cands]
 
     def connection_intervals(self):
         """[(t_established, t_down, link)] from the simulated network's point of view."""
